@@ -438,7 +438,9 @@ class Lib:
         if isinstance(val.t, TPy):
             return None
         import hashlib as _h
-        key = _h.md5((ast.unparse(node) + "|" + xs.t.key() + "|" + val.t.key()).encode()).hexdigest()[:10]
+        # the name depends on the element expression, not on the text of the iterated sequence (an argument)
+        key = _h.md5((ast.unparse(node.elt) + "|" + tgt + "|" + ",".join(free) + "|" + xs.t.key() + "|" +
+                      val.t.key()).encode()).hexdigest()[:10]
         args = [xs] + [st.env[f] for f in free]
         rt = TSeq(val.t, "list")
         fn = ex.uf("comp_" + key, *([a.t.sort() for a in args] + [rt.sort()]))
